@@ -329,3 +329,109 @@ pub fn mm256_cmp_ps<const IMM5: i32>(a: __m256, b: __m256) -> __m256 {
     let (a, b): ([f32; 8], [f32; 8]) = unsafe { (tm(a), tm(b)) };
     unsafe { tm(lanes!(8, |i: usize| if a[i] != b[i] { u32::MAX } else { 0u32 })) }
 }
+
+// --------------------------------------------------------------------------- widening conversions
+// Not used by the pinned tree, but the obvious candidates of a "small optimisation" of a kernel
+// (a seeded change used _mm_cvtepi16_epi64): modelled so that such a change is decided instead of
+// ending as "unsupported construct".
+
+pub fn mm_cvtepi8_epi16(a: __m128i) -> __m128i {
+    let a: [i8; 16] = unsafe { tm(a) };
+    unsafe { tm(lanes!(8, |i: usize| a[i] as i16)) }
+}
+pub fn mm_cvtepi8_epi32(a: __m128i) -> __m128i {
+    let a: [i8; 16] = unsafe { tm(a) };
+    unsafe { tm(lanes!(4, |i: usize| a[i] as i32)) }
+}
+pub fn mm_cvtepi8_epi64(a: __m128i) -> __m128i {
+    let a: [i8; 16] = unsafe { tm(a) };
+    unsafe { tm(lanes!(2, |i: usize| a[i] as i64)) }
+}
+pub fn mm_cvtepi16_epi32(a: __m128i) -> __m128i {
+    let a: [i16; 8] = unsafe { tm(a) };
+    unsafe { tm(lanes!(4, |i: usize| a[i] as i32)) }
+}
+pub fn mm_cvtepi16_epi64(a: __m128i) -> __m128i {
+    let a: [i16; 8] = unsafe { tm(a) };
+    unsafe { tm(lanes!(2, |i: usize| a[i] as i64)) }
+}
+pub fn mm_cvtepi32_epi64(a: __m128i) -> __m128i {
+    let a: [i32; 4] = unsafe { tm(a) };
+    unsafe { tm(lanes!(2, |i: usize| a[i] as i64)) }
+}
+pub fn mm_cvtepu8_epi64(a: __m128i) -> __m128i {
+    let a: [u8; 16] = unsafe { tm(a) };
+    unsafe { tm(lanes!(2, |i: usize| a[i] as i64)) }
+}
+pub fn mm_cvtepu16_epi32(a: __m128i) -> __m128i {
+    let a: [u16; 8] = unsafe { tm(a) };
+    unsafe { tm(lanes!(4, |i: usize| a[i] as i32)) }
+}
+pub fn mm_cvtepu16_epi64(a: __m128i) -> __m128i {
+    let a: [u16; 8] = unsafe { tm(a) };
+    unsafe { tm(lanes!(2, |i: usize| a[i] as i64)) }
+}
+pub fn mm_cvtepu32_epi64(a: __m128i) -> __m128i {
+    let a: [u32; 4] = unsafe { tm(a) };
+    unsafe { tm(lanes!(2, |i: usize| a[i] as i64)) }
+}
+pub fn mm256_cvtepi8_epi16(a: __m128i) -> __m256i {
+    let a: [i8; 16] = unsafe { tm(a) };
+    unsafe { tm(lanes!(16, |i: usize| a[i] as i16)) }
+}
+pub fn mm256_cvtepi16_epi32(a: __m128i) -> __m256i {
+    let a: [i16; 8] = unsafe { tm(a) };
+    unsafe { tm(lanes!(8, |i: usize| a[i] as i32)) }
+}
+pub fn mm256_cvtepi32_epi64(a: __m128i) -> __m256i {
+    let a: [i32; 4] = unsafe { tm(a) };
+    unsafe { tm(lanes!(4, |i: usize| a[i] as i64)) }
+}
+pub fn mm256_cvtepu8_epi32(a: __m128i) -> __m256i {
+    let a: [u8; 16] = unsafe { tm(a) };
+    unsafe { tm(lanes!(8, |i: usize| a[i] as i32)) }
+}
+pub fn mm256_cvtepu16_epi32(a: __m128i) -> __m256i {
+    let a: [u16; 8] = unsafe { tm(a) };
+    unsafe { tm(lanes!(8, |i: usize| a[i] as i32)) }
+}
+pub fn mm256_cvtepu16_epi64(a: __m128i) -> __m256i {
+    let a: [u16; 8] = unsafe { tm(a) };
+    unsafe { tm(lanes!(4, |i: usize| a[i] as i64)) }
+}
+pub fn mm256_cvtepu32_epi64(a: __m128i) -> __m256i {
+    let a: [u32; 4] = unsafe { tm(a) };
+    unsafe { tm(lanes!(4, |i: usize| a[i] as i64)) }
+}
+pub fn mm_max_epu16(a: __m128i, b: __m128i) -> __m128i {
+    let (a, b): ([u16; 8], [u16; 8]) = unsafe { (tm(a), tm(b)) };
+    unsafe { tm(lanes!(8, |i: usize| if a[i] > b[i] { a[i] } else { b[i] })) }
+}
+pub fn mm_min_epi32(a: __m128i, b: __m128i) -> __m128i {
+    let (a, b): ([i32; 4], [i32; 4]) = unsafe { (tm(a), tm(b)) };
+    unsafe { tm(lanes!(4, |i: usize| if a[i] < b[i] { a[i] } else { b[i] })) }
+}
+pub fn mm_max_epi32(a: __m128i, b: __m128i) -> __m128i {
+    let (a, b): ([i32; 4], [i32; 4]) = unsafe { (tm(a), tm(b)) };
+    unsafe { tm(lanes!(4, |i: usize| if a[i] > b[i] { a[i] } else { b[i] })) }
+}
+pub fn mm_min_epu32(a: __m128i, b: __m128i) -> __m128i {
+    let (a, b): ([u32; 4], [u32; 4]) = unsafe { (tm(a), tm(b)) };
+    unsafe { tm(lanes!(4, |i: usize| if a[i] < b[i] { a[i] } else { b[i] })) }
+}
+pub fn mm_sub_epi32(a: __m128i, b: __m128i) -> __m128i {
+    let (a, b): ([i32; 4], [i32; 4]) = unsafe { (tm(a), tm(b)) };
+    unsafe { tm(lanes!(4, |i: usize| a[i].wrapping_sub(b[i]))) }
+}
+pub fn mm_sub_epi16(a: __m128i, b: __m128i) -> __m128i {
+    let (a, b): ([i16; 8], [i16; 8]) = unsafe { (tm(a), tm(b)) };
+    unsafe { tm(lanes!(8, |i: usize| a[i].wrapping_sub(b[i]))) }
+}
+pub fn mm256_sub_epi32(a: __m256i, b: __m256i) -> __m256i {
+    let (a, b): ([i32; 8], [i32; 8]) = unsafe { (tm(a), tm(b)) };
+    unsafe { tm(lanes!(8, |i: usize| a[i].wrapping_sub(b[i]))) }
+}
+pub fn mm_adds_epu16(a: __m128i, b: __m128i) -> __m128i {
+    let (a, b): ([u16; 8], [u16; 8]) = unsafe { (tm(a), tm(b)) };
+    unsafe { tm(lanes!(8, |i: usize| a[i].saturating_add(b[i]))) }
+}
